@@ -55,9 +55,71 @@ func (h *harness) failedCommitSweep(b *base) (cases int64) {
 			n.pre = maps.Clone(inner.Impl().(map[string][]byte))
 			n.diag = nil
 			h.checkState(n, []op{o}, label)
+			// The node keeps living: every continuation of up to two further ops, then an ungraceful restart
+			// (whatever the failed attempt left behind in memory or in the store must not survive the process).
+			cont := []op{opStoreX, opStoreY, opRevert}
+			if r.Thorough() {
+				cont = []op{opStoreX, opStoreY, opStoreZ, opRevert, opRestartG}
+			}
+			var tails [][]op
+			for _, a := range cont {
+				tails = append(tails, []op{a})
+				for _, b := range cont {
+					tails = append(tails, []op{a, b})
+				}
+			}
+			retried := maps.Clone(inner.Impl().(map[string][]byte))
+			retriedChain := append([]*chain.Entry{}, n.chain...)
+			for _, tail := range tails {
+				// rebuild the same history on a fresh store copy (the live node's index objects cannot be cloned)
+				m := h.afterFailedCommit(b, o, k)
+				if m == nil {
+					r.Infra("failed-commit sweep: history %s k=%d did not reproduce on %s", opNames[o], k, label)
+					break
+				}
+				if imageSum(m.db.Impl().(map[string][]byte)) != imageSum(retried) || len(m.chain) != len(retriedChain) {
+					r.Infra("failed-commit sweep: replay of %s k=%d on %s reached another store image", opNames[o], k, label)
+					break
+				}
+				okTail := true
+				for _, t := range tail {
+					if !m.enabled(t) || m.apply(t) != nil {
+						okTail = false
+						break
+					}
+				}
+				if !okTail {
+					continue
+				}
+				if err := m.apply(opRestartU); err != nil {
+					continue
+				}
+				cases++
+				m.ctx = fmt.Sprintf(" [commit #%d of %s failed, retried, continued, ungraceful restart]", k, opKind(o))
+				m.pre = maps.Clone(m.db.Impl().(map[string][]byte))
+				h.checkState(m, append(append([]op{o}, tail...), opRestartU), label)
+			}
 		}
 	}
 	return
+}
+
+// afterFailedCommit rebuilds: initialised long-lived node, the k-th commit of op o fails, o retried successfully.
+func (h *harness) afterFailedCommit(b *base, o op, k int) *node {
+	inner := fastCopy(b.img)
+	fdb := faultdb.Wrap(inner)
+	n := &node{b: b, db: inner, bc: chain.NewNode(fdb, b.newState), chain: append([]*chain.Entry{}, b.chain...)}
+	if err := n.bc.WriteRunningEventFilter(); err != nil {
+		return nil
+	}
+	fdb.FailAt(fdb.Commits()+k, nil)
+	if err := n.apply(o); err == nil {
+		return nil
+	}
+	if err := n.apply(o); err != nil {
+		return nil
+	}
+	return n
 }
 
 func opKind(o op) string {
